@@ -188,6 +188,9 @@ def explore(
                     status = VerificationStatus.CONFIRMED
                     out.confirmed_paths += 1
                     if on_confirmed is not None:
+                        # detach first: realizing sample values must not add decisions to the search tree
+                        with ResumedTracing():
+                            space.detach_path()
                         on_confirmed({**pre_args.arguments, **_inst.FRESH}, ret)
             except IgnoreAttempt:
                 status = None
